@@ -103,6 +103,9 @@ func (t *confTap) onTap(r *tapRec) {
 	t.bufs++
 	label := n.conf.Label
 	key := n.conf.Keyring.GetPrimaryKey()
+	if key == nil {
+		return // no key installed (yet): nothing to seal with, the statement does not apply
+	}
 	buf := r.Buf
 	if !r.Stream {
 		if label != "" {
@@ -203,6 +206,14 @@ func genC15(c *Ctx) *Plan {
 			p.Ops = append(p.Ops, Op{At: at, Kind: "rotate", Node: node, A: int64(r.intn(3))})
 		}
 	}
+	if r.chance(0.3) {
+		// nodes start with an empty (non-nil) keyring; the first key is installed at run time
+		p.P["latekey"] = 1
+		kt := base + r.i64n(dur/3)
+		for i := 0; i < n; i++ {
+			p.Ops = append(p.Ops, Op{At: kt + int64(i)*int64(r.pick(1000, 1_000_000, 30_000_000)), Kind: "installkey", Node: i})
+		}
+	}
 	p.P["end"] = base + dur + int64(5*time.Second)
 	p.YieldOff = genYieldOff(r)
 	return p
@@ -233,10 +244,28 @@ func execC15(c *Ctx) {
 	oldK := simKey(p.Cfg.Encrypt, 1)
 	newK := simKey(16, 0x42)
 	rotated := map[int]int64{}
+	latekey := p.param("latekey", 0) == 1
 	cx.customOp = func(rec *opRec) bool {
 		op := rec.Op
 		n := cx.node(op.Node)
 		switch op.Kind {
+		case "create":
+			if latekey && n != nil && !n.created {
+				if err := cx.cl.create(n, func(conf *Config) {
+					kr, _ := NewKeyring(nil, nil)
+					conf.Keyring = kr
+				}); err != nil {
+					rec.Err = err.Error()
+				}
+				return true
+			}
+			return false
+		case "installkey":
+			if n != nil && n.conf != nil {
+				_ = n.conf.Keyring.AddKey(oldK)
+				c.Reach("first_key_installed_at_runtime")
+			}
+			return true
 		case "badstream":
 			// a correctly sealed but undecodable stream provokes the error reply
 			if n == nil || n.m == nil || !n.running() {
@@ -269,7 +298,7 @@ func execC15(c *Ctx) {
 			c.Reach("cleartext_stream_sent")
 			return true
 		case "rotate":
-			if n == nil || n.conf == nil {
+			if n == nil || n.conf == nil || latekey {
 				return true
 			}
 			// rotation steps only in a safe global order: add everywhere before anyone uses
